@@ -711,13 +711,17 @@ func diffWire(got, want []*refcodec.Packet) string {
 
 // C20: client library.
 func C20(c *core.Ctx) {
-	c.Rep.Bound = "ENUM: CONNACK answers (codes 0-5 x SessionPresent, malformed, truncated, close, silence until the virtual connect timeout); HIST: Subscribe/Unsubscribe requests over filters {a, a/+, b} and scripted-server SUBACK (granting / refusing) / UNSUBACK / PUBLISH (4 topics, QoS 0-2, DUP) / PUBREL, BFS de-duplicated on the request states to depth 6 (quick) / 8 (thorough) and every sequence to depth 4/5; a delivery for every remaining length 5..300"
+	c.Rep.Bound = "ENUM: CONNACK answers (codes 0-5 x SessionPresent, malformed, truncated, close, silence until the virtual connect timeout); HIST: Subscribe/Unsubscribe requests over filters {a, a/+, b} and scripted-server SUBACK (granting / refusing) / UNSUBACK / PUBLISH (4 topics, QoS 0-2, DUP) / PUBREL, BFS de-duplicated on the request states to depth 6 (quick) / 8 (thorough) and every sequence to depth 4/5; every sequence to depth 6/7 of inbound QoS 2 PUBLISH / repeated PUBLISH / PUBREL over two identifiers, one of them used again for another message; a delivery for every remaining length 5..300"
 	c.Rep.Rule = "Connect returns nil iff CONNACK code 0, otherwise the refusal code or an error, no library goroutine left and the socket closed; the message callback of a request is invoked once per delivered message whose topic matches an active (granted, not unsubscribed) filter of that request, QoS 2 duplicates suppressed, never for other topics; acknowledgements on the wire per packet (C02, client role); completion callbacks exactly once, not before the acknowledgement"
 	if c.Replay != nil {
 		fmt.Println("replay:", c.Replay.Scenario, "\n ", c.Replay.Message)
 		var hist []int
 		if json.Unmarshal(c.Replay.Input, &hist) == nil && len(hist) > 0 {
-			v, _, _ := runDispatch(dispatchOps(true), hist, true)
+			rops := dispatchOps(true)
+			if strings.HasPrefix(c.Replay.Scenario, "dispatch-qos2-identifiers") {
+				rops = q2DispatchOps()
+			}
+			v, _, _ := runDispatch(rops, hist, true)
 			fmt.Println("  violation:", v)
 		}
 		c.Rep.Scenarios++
@@ -920,6 +924,45 @@ func C20(c *core.Ctx) {
 			}
 		}
 	}
+	// inbound QoS 2 exchanges with two identifiers: released out of order, an identifier used
+	// again for a new message once its exchange is completed (while the completed message still
+	// waits behind the older exchange), PUBLISH repeated.  Every sequence behind Subscribe + SUBACK.
+	{
+		q2ops := q2DispatchOps()
+		qd := 6 // the shortest history that shows a lost second message has six packets
+		if c.Thorough() {
+			qd = 7
+		}
+		full := func(h []int) []int {
+			out := []int{0, 1}
+			for _, k := range h {
+				out = append(out, k+2)
+			}
+			return out
+		}
+		o := explore.HistOpts{Name: "dispatch-qos2-identifiers", NOps: len(q2ops) - 2, OpName: func(i int) string { return q2ops[i+2].String() }, MaxDepth: qd, Dedup: false,
+			Shard: c.Shard, NShards: c.NShards, Deadline: c.Deadline,
+			Run: func(h []int) (string, string, int) { return runDispatch(q2ops, full(h), false) }}
+		st := explore.Hist(o)
+		r := c.Rep
+		r.Scenarios++
+		r.States += int64(st.States)
+		r.Transitions += int64(st.Transitions)
+		r.Executions += int64(st.Histories)
+		r.Evaluations += int64(st.Histories)
+		r.Nontrivial += int64(st.States)
+		if !st.Exhaustive {
+			r.Exhaustive = false
+			r.AddCap(st.CapHit)
+		}
+		r.Sample(map[string]interface{}{"search": o.Name, "alphabet": o.NOps, "depth": st.DepthDone, "histories": st.Histories})
+		if st.Violation != "" {
+			in, _ := json.Marshal(full(st.Hist))
+			if c.Violate("C20 "+o.Name+" :: "+violClass(st.Violation), core.Replay{Scenario: o.Name + ": Subscribe(a/+@2,b@0) ; SUBACK ; " + explore.HistString(o, st.Hist), Message: st.Violation, Input: in}) {
+				return
+			}
+		}
+	}
 	d1, d2 := 6, 4
 	if c.Thorough() {
 		d1, d2 = 8, 5
@@ -999,6 +1042,17 @@ func C20(c *core.Ctx) {
 			r.Exhaustive = false
 			r.AddCap("stopped at listed finding")
 		}
+	}
+}
+
+func q2DispatchOps() []cop {
+	return []cop{
+		{kind: "api:sub", filters: []string{"a/+", "b"}, qoss: []byte{2, 0}}, {kind: "srv:suback"},
+		{kind: "srv:pub", topic: "a/c", qos: 2, id: 6, payload: "m4"},
+		{kind: "srv:pub", topic: "a/c", qos: 2, id: 7, payload: "m6"},
+		{kind: "srv:pub", topic: "a/d", qos: 2, id: 7, payload: "m7"},
+		{kind: "srv:pub", topic: "a/c", qos: 2, id: 6, dup: true, payload: "m4dup"},
+		{kind: "srv:pubrel", id: 6}, {kind: "srv:pubrel", id: 7},
 	}
 }
 
